@@ -252,13 +252,16 @@ class BerlekampMasseyDecoder(BaseBlockDecoder[Union[BCHCodeEncoder, ReedSolomonC
 
         # Process blockwise
         def decode_block(r_block):
-            batch_size = r_block.shape[0]
+            # r_block has shape (..., blocks, code_length): decode every block of every batch item
+            block_dims = r_block.shape[:-1]
+            words = r_block.reshape(-1, self.code_length)
+            batch_size = words.shape[0]
             decoded = torch.zeros(batch_size, self.code_dimension, dtype=received.dtype, device=received.device)
-            errors = torch.zeros_like(r_block)
+            errors = torch.zeros_like(words)
 
             for i in range(batch_size):
                 # Get the current received word
-                r = r_block[i].view(-1)  # Flatten to 1D tensor for batch processing
+                r = words[i]
 
                 # Convert to field elements - convert each bit individually
                 r_field = []
@@ -300,7 +303,10 @@ class BerlekampMasseyDecoder(BaseBlockDecoder[Union[BCHCodeEncoder, ReedSolomonC
                 # Extract message bits from the corrected codeword
                 decoded[i] = self.encoder.extract_message(corrected)
 
-            return (decoded, errors) if return_errors else decoded
+            decoded = decoded.reshape(*block_dims, self.code_dimension)
+            if return_errors:
+                return decoded, errors.reshape(*block_dims, self.code_length)
+            return decoded
 
         # Apply decoding blockwise
         return apply_blockwise(received, self.code_length, decode_block)
